@@ -253,3 +253,241 @@ def op_table_to_coq(name, rows, header):
 def parse_file(path):
     with open(path) as f:
         return ast.parse(f.read(), filename=path)
+
+
+# ---------------------------------------------------------------------------
+# Statement-level translation (appended for C16; generic).
+#
+# Straight-line function bodies made of `if/elif/else`, assignment to a plain
+# name (also `+=` style), `return` and `raise` become one Gallina expression of
+# type `res T` (constructors `Ok : T -> res T`, `Err : Z -> res T`; the type is
+# supplied by the generated file's header).  `raise` number k in source order
+# (1-based, counted over the whole function) becomes `Err k`.  The continuation
+# of an `if` is duplicated into both branches, so typing is per path; an
+# optional parameter (type 'optZ') is refined to 'Z' by `if x is None` /
+# `if x is not None` tests, which become a `match`.  Anything else aborts.
+
+class ExprTrOpt(ExprTr):
+    """ExprTr + optional ints ('optZ'), `isinstance(<int or bool>, <non-int class>)`
+    = false, comparison of an optional with an int, calls to already translated
+    functions (`calls`: python name -> (coq name, [arg types], result type))."""
+
+    NONINT_CLASSES = ('WireVector',)
+
+    def __init__(self, env=None, hook=None, calls=None):
+        ExprTr.__init__(self, env, hook)
+        self.calls = dict(calls or {})
+
+    def as_Z(self, t):
+        if t[1] == 'optZ':
+            raise Untranslatable('optional value used as an integer: %s' % t[0])
+        if t[1] not in ('Z', 'bool'):
+            raise Untranslatable('value of type %s used as an integer: %s' % (t[1], t[0]))
+        return ExprTr.as_Z(self, t)
+
+    def as_bool(self, t):
+        if t[1] == 'optZ':
+            return ('(match %s with None => false | Some z__ => negb (Z.eqb z__ 0) end)' % t[0])
+        if t[1] not in ('Z', 'bool'):
+            raise Untranslatable('value of type %s used as a condition: %s' % (t[1], t[0]))
+        return ExprTr.as_bool(self, t)
+
+    def tr_Compare(self, n):
+        if len(n.ops) == 1 and isinstance(n.ops[0], (ast.Eq, ast.NotEq)):
+            lt, rt = self.tr(n.left), self.tr(n.comparators[0])
+            if (lt[1] == 'optZ') != (rt[1] == 'optZ'):
+                o, z = (lt, rt) if lt[1] == 'optZ' else (rt, lt)
+                eq = '(match %s with None => false | Some z__ => Z.eqb z__ %s end)' % (o[0], self.as_Z(z))
+                return (eq if isinstance(n.ops[0], ast.Eq) else '(negb %s)' % eq, 'bool')
+        if len(n.ops) == 1 and isinstance(n.ops[0], (ast.Is, ast.IsNot)):
+            r = n.comparators[0]
+            if isinstance(r, ast.Constant) and r.value is None:
+                lt = self.tr(n.left)
+                if lt[1] in ('Z', 'bool'):   # already refined on this path
+                    return ('false' if isinstance(n.ops[0], ast.Is) else 'true', 'bool')
+                if lt[1] == 'optZ':
+                    a, b = ('true', 'false') if isinstance(n.ops[0], ast.Is) else ('false', 'true')
+                    return ('(match %s with None => %s | Some _ => %s end)' % (lt[0], a, b), 'bool')
+                _fail(n, '`is None` on a value of type %s' % lt[1])
+        return ExprTr.tr_Compare(self, n)
+
+    def tr_Call(self, n):
+        f = n.func
+        if isinstance(f, ast.Name) and f.id == 'isinstance' and len(n.args) == 2 and not n.keywords:
+            cls = n.args[1]
+            if isinstance(cls, ast.Name) and cls.id in self.NONINT_CLASSES:
+                t = self.tr(n.args[0])
+                if t[1] in ('Z', 'bool', 'optZ'):
+                    return ('false', 'bool')
+        if isinstance(f, ast.Name) and f.id in self.calls and not n.keywords:
+            cname, argtys, rty = self.calls[f.id]
+            if len(argtys) != len(n.args):
+                _fail(n, 'arity mismatch calling %s' % f.id)
+            args = []
+            for a, ty in zip(n.args, argtys):
+                t = self.tr(a)
+                if ty == 'Z':
+                    args.append(self.as_Z(t))
+                elif ty == 'bool':
+                    args.append(self.as_bool(t))
+                elif ty == 'optZ':
+                    args.append(t[0] if t[1] == 'optZ' else '(Some %s)' % self.as_Z(t))
+                else:
+                    _fail(n, 'unsupported argument type')
+            return ('(%s %s)' % (cname, ' '.join(args)), rty)
+        return ExprTr.tr_Call(self, n)
+
+
+def raise_ordinals(fn):
+    """Raise nodes of a function in source order -> 1-based ordinal."""
+    rs = sorted((x for x in ast.walk(fn) if isinstance(x, ast.Raise)),
+                key=lambda x: (x.lineno, x.col_offset))
+    return {id(x): i + 1 for i, x in enumerate(rs)}
+
+
+class StmtTr(object):
+    """Translate a straight-line statement list to a Gallina term of type `res T`.
+
+    params: list of (python name, type) with type in 'Z' | 'bool' | 'optZ'.
+    tuple_ctors: names of constructors whose call `C(a, b)` is the tuple (a, b).
+    """
+
+    def __init__(self, fn, tuple_ctors=(), calls=None, hook=None):
+        self.fn = fn
+        self.ordinal = raise_ordinals(fn)
+        self.tuple_ctors = set(tuple_ctors)
+        self.calls = calls
+        self.hook = hook
+
+    def expr(self, env):
+        return ExprTrOpt(env, self.hook, self.calls)
+
+    def ret_value(self, node, env):
+        e = self.expr(env)
+        if isinstance(node, ast.Call) and isinstance(node.func, ast.Name) \
+                and node.func.id in self.tuple_ctors and not node.keywords:
+            return '(%s)' % ', '.join(e.as_Z(e.tr(a)) for a in node.args)
+        if isinstance(node, ast.Tuple):
+            return '(%s)' % ', '.join(e.as_Z(e.tr(a)) for a in node.elts)
+        if node is None:
+            _fail(self.fn, 'bare return')
+        t = e.tr(node)
+        if t[1] == 'res':      # tail call of a translated function returning res
+            return None, t[0]
+        return e.as_Z(t)
+
+    def stmts(self, body, env, ind='  '):
+        if not body:
+            _fail(self.fn, 'control reaches the end of the fragment without return/raise')
+        s, rest = body[0], list(body[1:])
+        if isinstance(s, ast.Expr) and isinstance(s.value, ast.Constant) and isinstance(s.value.value, str):
+            return self.stmts(rest, env, ind)          # docstring
+        if isinstance(s, ast.Return):
+            r = self.ret_value(s.value, env)
+            if isinstance(r, tuple):
+                return r[1]
+            return '(Ok %s)' % r
+        if isinstance(s, ast.Raise):
+            return '(Err %d)' % self.ordinal[id(s)]
+        if isinstance(s, (ast.Assign, ast.AugAssign)):
+            if isinstance(s, ast.Assign):
+                if len(s.targets) != 1 or not isinstance(s.targets[0], ast.Name):
+                    _fail(s, 'only assignment to one plain name')
+                name, value = s.targets[0].id, s.value
+            else:
+                if not isinstance(s.target, ast.Name):
+                    _fail(s, 'only augmented assignment to a plain name')
+                name = s.target.id
+                value = ast.BinOp(left=ast.Name(id=name, ctx=ast.Load()), op=s.op, right=s.value)
+                ast.copy_location(value, s)
+            e = self.expr(env)
+            if isinstance(value, ast.Constant) and value.value is None:
+                t = ('(@None Z)', 'optZ')
+            else:
+                t = e.tr(value)
+            if t[1] not in ('Z', 'bool', 'optZ'):
+                _fail(s, 'assignment of a value of type %s' % t[1])
+            env2 = dict(env)
+            env2[name] = (coq_ident(name), t[1])
+            return '(let %s := %s in\n%s%s)' % (coq_ident(name), t[0], ind, self.stmts(rest, env2, ind))
+        if isinstance(s, ast.If):
+            ref = self.refinement(s.test, env)
+            if ref is not None:
+                name, none_first = ref
+                none_body, some_body = (s.body, s.orelse) if none_first else (s.orelse, s.body)
+                env_some = dict(env)
+                env_some[name] = (coq_ident(name) + "'", 'Z')
+                env_none = dict(env)
+                env_none[name] = ('(@None Z)', 'optZ')
+                return ('(match %s with\n%s| None => %s\n%s| Some %s => %s\n%send)' % (
+                    env[name][0], ind, self.stmts(list(none_body) + rest, env_none, ind + '  '),
+                    ind, coq_ident(name) + "'", self.stmts(list(some_body) + rest, env_some, ind + '  '), ind))
+            e = self.expr(env)
+            c = e.as_bool(e.tr(s.test))
+            return '(if %s\n%sthen %s\n%selse %s)' % (
+                c, ind, self.stmts(list(s.body) + rest, env, ind + '  '),
+                ind, self.stmts(list(s.orelse) + rest, env, ind + '  '))
+        _fail(s, 'unsupported statement')
+
+    @staticmethod
+    def refinement(test, env):
+        """`x is None` / `x is not None` on an optional name -> (name, none_branch_is_body)."""
+        if isinstance(test, ast.Compare) and len(test.ops) == 1 and isinstance(test.left, ast.Name) \
+                and isinstance(test.comparators[0], ast.Constant) and test.comparators[0].value is None \
+                and isinstance(test.ops[0], (ast.Is, ast.IsNot)):
+            nm = test.left.id
+            if nm in env and env[nm][1] == 'optZ' and env[nm][0] != '(@None Z)':
+                return nm, isinstance(test.ops[0], ast.Is)
+        return None
+
+
+COQ_TYPES = {'Z': 'Z', 'bool': 'bool', 'optZ': 'option Z'}
+
+
+def check_params(fn, params, skip_self=False):
+    a = fn.args
+    if a.vararg or a.kwarg or a.kwonlyargs:
+        _fail(fn, 'only plain positional parameters')
+    names = [x.arg for x in a.args]
+    if skip_self and names and names[0] == 'self':
+        names = names[1:]
+    if names != [p for p, _ in params]:
+        raise Untranslatable('parameters of %s are %r, expected %r' % (fn.name, names, [p for p, _ in params]))
+    # defaults must be None (optional) or a bool/int literal
+    for d in a.defaults:
+        if not isinstance(d, ast.Constant) or not (d.value is None or isinstance(d.value, (bool, int))):
+            _fail(d, 'unsupported default value')
+
+
+def function_to_coq(fn, coq_name, params, result_type, tuple_ctors=(), calls=None, body=None,
+                    extra_env=None, skip_self=False):
+    """Whole function (or, with `body`, a given statement sub-list with the free
+    variables typed by `params`) -> `Definition coq_name (params) : res result_type := ...`."""
+    if body is None:
+        check_params(fn, params, skip_self)
+        body = fn.body
+    env = {p: (coq_ident(p), ty) for p, ty in params}
+    env.update(extra_env or {})
+    tr = StmtTr(fn, tuple_ctors, calls)
+    term = tr.stmts(list(body), env)
+    binders = ' '.join('(%s : %s)' % (coq_ident(p), COQ_TYPES[ty]) for p, ty in params)
+    return 'Definition %s %s : res (%s) :=\n  %s.\n' % (coq_name, binders, result_type, term)
+
+
+def guard_list_to_coq(fn, coq_name, params, start_after=None):
+    """Top-level `if <cond>: raise ...` statements of fn (no else), in order ->
+    `Definition coq_name (params) : option Z` = ordinal of the first guard that fires."""
+    ordn = raise_ordinals(fn)
+    env = {p: (coq_ident(p), ty) for p, ty in params}
+    guards = []
+    for s in fn.body:
+        if isinstance(s, ast.If) and len(s.body) == 1 and isinstance(s.body[0], ast.Raise) and not s.orelse:
+            e = ExprTrOpt(env)
+            guards.append((e.as_bool(e.tr(s.test)), ordn[id(s.body[0])]))
+    if not guards:
+        raise Untranslatable('no `if ...: raise` guards found in %s' % fn.name)
+    term = 'None'
+    for c, k in reversed(guards):
+        term = '(if %s then Some (%d)%%Z else\n   %s)' % (c, k, term)
+    binders = ' '.join('(%s : %s)' % (coq_ident(p), COQ_TYPES[ty]) for p, ty in params)
+    return 'Definition %s %s : option Z :=\n  %s.\n' % (coq_name, binders, term), len(guards)
